@@ -37,6 +37,12 @@ def config(rng, t, st, methods):
         # regrets not discounted at all (+inf, +inf) but the average weighted by t^g: only the averaging step is left
         params = [INF, INF, rng.choice([0.5, 1.0, 2.0, 3.0]), rng.choice([0.0, INF, 1.0])]
     T = rng.choice([0, 1, 2, 2, 3, 3, 4, 10])
+    if rng.random() < 0.1:
+        # a large (legal, finite) averaging exponent: t^g itself leaves the binary64 range after a few iterations, the
+        # documented discount (t/(t+1))^g of the accumulated strategy never does
+        base = params if isinstance(params, list) else [rng.choice([1.5, INF, 1.0]), rng.choice([0.0, -INF, 0.5]), 2.0, rng.choice([INF, 0.0])]
+        params = [base[0], base[1], rng.choice([200.0, 700.0, 64.0]), base[3]]
+        T = rng.choice([4, 10, 40])
     r = rng.choice([0.0, 0.0, 0.0, -1.0, 1e-2, 0.5, 5.0])
     draws = draws_for(rng, t, st) if method != "full" else None
     return method, params, T, r, draws
